@@ -431,6 +431,15 @@ def float_checks(seed, quick):
             for a_ in sw:
                 tj[[a_, a_ + 1]] = tj[[a_ + 1, a_]]
                 yj[[a_, a_ + 1]] = yj[[a_ + 1, a_]]
+        if it % 3 == 2 or it % 4 == 1:
+            # records delivered late (a block rotated by one: the sorting permutation is a cycle, not its own inverse) and two exchanged blocks of unequal length
+            for a_ in np.arange(6, tj.size - 30, max(12, (tj.size - 36) // 8))[:8]:
+                L_ = 4 + int(a_) % 3
+                tj[a_:a_ + L_] = np.roll(tj[a_:a_ + L_], 1)
+                yj[a_:a_ + L_] = np.roll(yj[a_:a_ + L_], 1)
+            b_ = tj.size - 22
+            tj[b_:b_ + 9] = np.hstack((tj[b_ + 3:b_ + 9], tj[b_:b_ + 3]))
+            yj[b_:b_ + 9] = np.hstack((yj[b_ + 3:b_ + 9], yj[b_:b_ + 3]))
         with warnings.catch_warnings():
             warnings.simplefilter("ignore")
             tn, yn = dsp.fixtime((tj, yj), sr=sr, verbose=False)
